@@ -143,10 +143,13 @@ def gen_case(rnd, prop, tier):
     if prop == 'C10' and rnd.random() < 0.05:
         return gen_aim_case(rnd)
     n = rnd.choice([2, 3, 3, 4, 4, 5])
+    long_chain = prop == 'C08' and rnd.random() < 0.1
+    if long_chain:
+        n = rnd.choice([6, 7, 8])       # many cliques: moderate parameters per clique add up along one configuration
     attrs = gen.gen_names(rnd, n)
-    sizes = gen.gen_sizes(rnd, n, max_size=4, max_joint=1024, p_one=0.04)
-    cliques, kind = gen.gen_cliques(rnd, attrs, max_width=3)
-    cliques = [cl for cl in cliques if cl][:6]
+    sizes = gen.gen_sizes(rnd, n, max_size=4, max_joint=1024, p_one=0.04) if not long_chain else [2] * n
+    cliques, kind = gen.gen_cliques(rnd, attrs, max_width=3) if not long_chain else gen.gen_cliques(rnd, attrs, kind='chain', max_width=2)
+    cliques = [cl for cl in cliques if cl][:6 if not long_chain else 8]
     if not cliques:
         cliques = [[attrs[0]]]
     pool = []
